@@ -30,21 +30,9 @@ def run_case(rep, work, c, tag):
         return
     got_f = sorted((r['ruleId'], r['range']['start']['line']) for r in recs if r['ruleId'] != 'unused-suppression')
     got_u = sorted(r['range']['start']['line'] for r in recs if r['ruleId'] == 'unused-suppression')
-    # per-line multiplicity is part of the expectation: rebuild it from the lines
-    h = c['source'][:c['source'].find(c['source'].split('\n')[0])].count('\n')
-    want_set = {(r, l) for r, l in c['findings']}
-    want_f = []
-    header_lines = c['source'].count('\n') - len(c['lines']) - (c['source'].rstrip('\n').count('\n') + 1 - c['source'].count('\n'))
-    # statements per line from the structured description
-    first_body_line = min([l for _, l in c['findings']] + c['unused'] + [10 ** 9])
-    # simpler and exact: derive the header height from the model's smallest possible line: use known structure
+    # per-line multiplicity is part of the expectation (computed by the model next to the set)
     hdr = {'TypeScript': 1, 'Go': 2, 'C': 1, 'Java': 2, 'Rust': 1, 'Css': 1, 'Html': 1}.get(c['lang'], 0)
-    for i, ln in enumerate(c['lines']):
-        for s in ln['stmts']:
-            k = (f'r{s + 1}', i + hdr)
-            if k in want_set:
-                want_f.append(k)
-    want_f.sort()
+    want_f = sorted((r, l) for r, l in c['findings_multi'])
     want_u = sorted(c['unused'])
     known = {}
     for k in c['known_lines']:
